@@ -3,5 +3,7 @@
 set -u
 export GOFLAGS=-mod=mod GOPROXY=off GOSUMDB=off GOTOOLCHAIN=local
 cd "$(dirname "$0")/engine" || exit 1
-go build ./cmd/... ./rt/... ./shim/... ./codec/... ./ev/... || exit 1
+go build ./cmd/... ./rt/... ./shim/... ./codec/... ./ev/... ./conform/... || exit 1
+# warm the cache for both build flavours and validate the environment model once
+(cd .. && ./check C16 quick >/dev/null 2>&1; ./check C12 quick >/dev/null 2>&1; true)
 exit 0
